@@ -4,14 +4,14 @@
      lexing/mod.rs        : lex_token (the dispatch order) and every sub-lexer it tries — lex_regexish,
                             lex_punctuation/lex_quote, lex_tabs, lex_spaces, lex_newlines, lex_plural_digit,
                             lex_hex_number, lex_long_decade, lex_number (candidate bound, last digit, the
-                            longest-prefix loop over a grammar of Rust's f64::from_str), lex_word, lex_catch
+                            longest-FINITE-prefix loop over a grammar of Rust's f64::from_str), lex_word, lex_catch
      lexing/hostname.rs   : lex_hostname, lex_hostname_token
      lexing/url.rs        : lex_url up to and including the test for "//"      (the tail is a parameter, see below)
      lexing/email_address.rs : lex_email_address up to the search for '@'      (the tail is a parameter, see below)
      parsers/plain_english.rs : PlainEnglish::parse (the cursor loop)
-     document.rs          : condense_spaces, condense_newlines, newlines_to_breaks, condense_contractions
-                            (find_all_matches + condense_pattern for the fixed pattern word-apostrophe-word),
-                            condense_dotted_initialisms, condense_number_suffixes, condense_indices
+     document.rs          : condense_spaces, condense_newlines, newlines_to_breaks, condense_number_suffixes,
+                            condense_indices, condense_contractions (find_all_matches + condense_pattern for
+                            the fixed pattern word-apostrophe-word), condense_dotted_initialisms  (this order)
      number.rs            : NumberSuffix::from_chars / to_chars / correct_suffix_for   (tables: Tables_number.v)
      linting/correct_number_suffix.rs : CorrectNumberSuffix::lint
 
@@ -21,7 +21,7 @@
                   and are checked by the harness against Rust's `char` on every run.
      url_tail   : what lex_ip_schemepart consumes after "//"            (only reached on texts containing "://")
      email_tail : lex_email_address after an '@' was found              (only reached on texts containing '@')
-   The passes that run after condense_number_suffixes (condense_ellipsis, condense_latin, match_quotes,
+   The passes that run after condense_dotted_initialisms (condense_ellipsis, condense_latin, match_quotes,
    articles_imply_nouns, dictionary metadata) never touch a Number token; they are not modelled here and the
    theorems carry that fact as an explicit, monitored hypothesis.
 
@@ -205,7 +205,8 @@ Section Lexer.
   Definition lex_newlines (src : text) : option (nat * kind) :=
     let n := count_while (N.eqb 10) src in if 0 <? n then Some (n, KNewline n) else None.
 
-  (* ---- lex_plural_digit ---- *)
+  (* ---- lex_plural_digit: the first character is tested with is_ascii_alphanumeric, the look-ahead behind
+     the `s` with char::is_alphanumeric (7202fd4) ---- *)
   Definition lex_plural_digit (src : text) : option (nat * kind) :=
     match src with
     | [] => None
@@ -220,7 +221,7 @@ Section Lexer.
         if (s =? 115)%N then                                                  (* 's' *)
           match r3 with
           | [] => Some (S (fst ir), KWord)
-          | x :: _ => if negb (is_ascii_alnum x) then Some (S (fst ir), KWord) else None
+          | x :: _ => if negb (u_alnum U x) then Some (S (fst ir), KWord) else None
           end
         else None
       | [] => None
@@ -303,17 +304,57 @@ Section Lexer.
     end.
 
   Definition parse_dec (t : text) : N := fold_left (fun a c => (10 * a + (c - 48))%N) t 0%N.
+
+  (* `.filter(|n| n.is_finite())` (b5c1992) on a literal that parses: inf / infinity / nan are not finite; a
+     decimal literal m * 10^e (m = all its digits, e = exponent - number of fraction digits) is rounded
+     correctly by f64::from_str (round to nearest, ties to even), so the result is finite exactly when
+     m * 10^e < 2^1024 - 2^970 (half an ulp above f64::MAX).  The comparison is exact (N arithmetic); the
+     two cut-offs only avoid computing astronomically large powers: m >= 1 and e > 400 is infinite, and
+     m < 10^(number of digits) <= 10^-e is below 1.  (Rust saturates the exponent it reads at 65536: the
+     same verdict for every literal shorter than 65 k characters.) *)
+  Definition f64_round_to_inf : N := (2 ^ 1024 - 2 ^ 970)%N.
+  Definition finite_dec (digits : text) (nfrac : nat) (eneg : bool) (eabs : N) : bool :=
+    let m := parse_dec digits in
+    let nf := N.of_nat nfrac in
+    if (m =? 0)%N then true
+    else if eneg then
+      (if (N.of_nat (length digits) <=? eabs + nf)%N then true
+       else (m <? f64_round_to_inf * 10 ^ (eabs + nf))%N)
+    else if (nf <=? eabs)%N then
+      (if (400 <? eabs - nf)%N then false else (m * 10 ^ (eabs - nf) <? f64_round_to_inf)%N)
+    else (m <? f64_round_to_inf * 10 ^ (nf - eabs))%N.
+  (* the exponent part ([eE] [+-]? D+, or nothing) of a literal accepted by parses_f64: (negative?, |e|) *)
+  Definition exp_of (t : text) : bool * N :=
+    match t with
+    | [] => (false, 0%N)
+    | _ :: r => (match r with c :: _ => (c =? 45)%N | [] => false end, parse_dec (strip_sign r))
+    end.
+  Definition finite_f64 (t : text) : bool :=
+    let t1 := strip_sign t in
+    if is_special_float t1 then false else
+    let a := drop_digits t1 in
+    let ip := firstn (length t1 - length a) t1 in          (* digits before the point *)
+    match a with
+    | c :: b =>
+        if (c =? 46)%N then
+          let b' := drop_digits b in
+          let fp := firstn (length b - length b') b in      (* digits after the point *)
+          finite_dec (ip ++ fp) (length fp) (fst (exp_of b')) (snd (exp_of b'))
+        else finite_dec ip 0 (fst (exp_of a)) (snd (exp_of a))
+    | [] => finite_dec ip 0 false 0%N
+    end.
   (* the value of a literal that parses: exact integers below 2^53 written with digits only are VInt *)
   Definition value_of (t : text) : value :=
     if forallb is_ascii_digit t && (parse_dec t <? two53)%N then VInt (parse_dec t) else VOther.
 
   Definition is_float_char (c : N) : bool := is_ascii_digit c || memN c float_extra_chars.
 
-  (* `while !s.is_empty() { if s.parse::<f64>().is_ok() { return .. s.len() }  s.pop(); }`, s = src[0..k] *)
+  (* `while !s.is_empty() { if let Some(n) = s.parse::<f64>().ok().filter(|n| n.is_finite()) { return .. s.len() }
+     s.pop(); }`, s = src[0..k] *)
   Fixpoint longest_float (k : nat) (src : text) : option (nat * kind) :=
     match k with
     | 0 => None
-    | S k' => if parses_f64 (firstn k src) then Some (k, KNumber (value_of (firstn k src)) None)
+    | S k' => if parses_f64 (firstn k src) && finite_f64 (firstn k src) then Some (k, KNumber (value_of (firstn k src)) None)
               else longest_float k' src
     end.
 
@@ -416,7 +457,7 @@ Section Lexer.
   Definition lex_doc (src : text) : res (list token) := lex_loop (length src) 0 src.
 
   (* ============================================================================================== *)
-  (* 5. Document::parse, up to and including condense_number_suffixes                                *)
+  (* 5. Document::parse, up to and including condense_dotted_initialisms                             *)
   (* ============================================================================================== *)
 
   (* ---- condense_spaces ---- *)
@@ -647,8 +688,18 @@ Section Lexer.
     do r <- cns_scan src 0 toks;
     condense_indices (snd r) 2 (fst r).
 
-  (* ---- the part of Document::new this model covers ---- *)
+  (* ---- the part of Document::parse this model covers (pass order as of dcfd71f: number suffixes are
+     attached before contractions are condensed) ---- *)
   Definition doc_tokens (src : text) : res (list token) :=
+    do t0 <- lex_doc src;
+    do t1 <- condense_spaces t0;
+    do t2 <- condense_newlines t1;
+    do t3 <- condense_number_suffixes src (newlines_to_breaks t2);
+    do t4 <- condense_contractions t3;
+    condense_dotted_initialisms t4.
+  (* HISTORY ONLY: the pass order before dcfd71f (condense_number_suffixes last); used by the regression
+     witness C17_apostrophe_old_refuted, by nothing else *)
+  Definition doc_tokens_old (src : text) : res (list token) :=
     do t0 <- lex_doc src;
     do t1 <- condense_spaces t0;
     do t2 <- condense_newlines t1;
@@ -712,14 +763,15 @@ Fixpoint dots_ok (t : text) : bool :=
 Definition is_apostrophe_char (c : N) : bool :=
   match punct_of c with Some PApostrophe => true | _ => false end.
 (* pre: no numeric character, no '[', no '@', does not end in a word character;
-   post: no numeric character, no '@', does not start with a word character, a digit or an apostrophe;
+   post: no numeric character, no '@', does not start with a word character or a digit
+         (it MAY start with an apostrophe: `2st's`, since dcfd71f);
    the whole text: no "://", no '.' directly followed by [A-Za-z0-9-]. *)
 Definition ctx_ok (U : uni) (pre num sfx post : text) : bool :=
   forallb (fun c => negb (u_numeric U c) && negb (c =? 91)%N && negb (c =? 64)%N) pre
   && forallb (fun c => negb (u_numeric U c) && negb (c =? 64)%N) post
   && match last_error pre with Some c => negb (u_lingual U c) | None => true end
   && match post with
-     | c :: _ => negb (u_lingual U c) && negb (is_ascii_digit c) && negb (is_apostrophe_char c)
+     | c :: _ => negb (u_lingual U c) && negb (is_ascii_digit c)
      | [] => true
      end
   && negb (has_scheme_mark (pre ++ num ++ sfx ++ post))
